@@ -486,6 +486,50 @@ func makeReplay(P *Program, prop string, g *oblGroup, o checkOpts) (string, stri
 		}
 		return path, "no-failing-input-found"
 	}
+	if ob.Kind == "table" && !o.noReplay {
+		// a ground fact about the registry: replay it on the running package
+		key := g.name[strings.LastIndex(g.name, ":")+1:]
+		rf.TestName = "TestKvcReplayTable"
+		rf.Package = modPath + "/knx/dpt"
+		rf.PkgDir = "knx/dpt"
+		rf.TestSource = fmt.Sprintf(`package dpt
+
+import (
+	"fmt"
+	"reflect"
+	"regexp"
+	"strings"
+	"testing"
+)
+
+func TestKvcReplayTable(t *testing.T) {
+	what, key := %q, %q
+	bad := false
+	switch {
+	case strings.Contains(what, "#table.keyform:"):
+		_, ok := Produce(key)
+		bad = ok && !regexp.MustCompile("^[0-9]+\\.[0-9]{3}$").MatchString(key)
+	case strings.Contains(what, "#table.typed:"):
+		d, ok := Produce(key)
+		bad = ok && reflect.TypeOf(d).String() != "*dpt.DPT_"+strings.Replace(key, ".", "", 1)
+	case strings.Contains(what, "#table.complete:"):
+		bad = true
+		for _, n := range ListSupportedTypes() {
+			if d, ok := Produce(n); ok && reflect.TypeOf(d).Elem().Name() == key {
+				bad = false
+			}
+		}
+	}
+	if bad {
+		fmt.Println("KVC-REPLAY: confirmed", what)
+	} else {
+		fmt.Println("KVC-REPLAY: not-reproduced", what)
+	}
+}
+`, g.name, key)
+		runReplayTest(P.repo, rf)
+		return finish()
+	}
 	if ob.Result != "sat" || ob.exec == nil || o.noReplay {
 		if ob.Result != "sat" {
 			rf.Note = "the solver gave no model (" + ob.Result + "); the obligation is reported because it no longer discharges"
